@@ -195,6 +195,121 @@ def check_collector(ctx, out, prefix, name):
     out.inst(rule, n, 2, ["while let Some(r) = tasks.join_next().await { Ok(Some)->push | Ok(None)->continue | Err->return }"])
 
 
+def content_selector_model(ctx, out, prefix, fn_body, pattern_key):
+    """The content selector on a small model (engine.casewalk + strmodel): for the pattern attribute {absent,
+    "", "p"} x the regex's outcome on the content {no match, a match without a `value` group, a match with one}
+    the function is walked and what it returns is compared with the documented selection: without the attribute
+    the trimmed content; with it - whatever its value, the empty one included: an empty pattern is a pattern -
+    the `value` group, else the whole first match, else "", of the content as it is in the file.
+    True / False if decided, None if the model cannot follow the code."""
+    from engine import casewalk as CW
+    from engine import strmodel as SM
+    rule = prefix + ".content"
+    std = CW.std_hooks()
+    sm = SM.hooks()
+    v = ctx.inl(fn_body, skip=lambda cb: cb.id == "blockwatch::blocks::Block::content", tag="selector-model", sugar=True)
+    pfile = [i for i in range(1, v.argc + 1) if re.match(r"&('\w+ )?str$", v.local_ty(i))]
+    if len(pfile) != 1:
+        return None
+    n = 0
+    total = 0
+    bad = []
+    for pat in (None, "", "p"):
+        for outcome in ("none", "whole", "value"):
+            if pat is None and outcome != "none":
+                continue
+            results = set()
+            seen_input = []
+
+            def hook(w, bb, t, argv, env, pat=pat, outcome=outcome):
+                nm = callee_name(t)
+                a0 = w.deref_val(env, argv[0]) if argv else CW.TOP
+                if re.search(r"HashMap::<K, V, S, A>::(get|contains_key)$", nm) and len(argv) > 1:
+                    k = w.deref_val(env, argv[1])
+                    if not (CW.is_const(k) and isinstance(k[1], str)):
+                        return None
+                    hit = (k[1] == pattern_key and pat is not None)
+                    if nm.endswith("contains_key"):
+                        return CW.const(1 if hit else 0)
+                    return CW.adt("std::option::Option", "Some", 1, [("0", CW.const(pat))]) if hit else CW.adt("std::option::Option", "None", 0, [])
+                if re.search(r"blocks::Block::content$", nm):
+                    return CW.sym("CONTENT")
+                if re.search(r"<impl str>::trim$", nm) and a0 == CW.sym("CONTENT"):
+                    return CW.sym("TRIMMED")
+                if re.search(r"regex::Regex::new$", nm) and argv:
+                    return CW.adt("std::result::Result", "Ok", 0, [("0", CW.sym("RE", a0))])
+                if re.search(r"anyhow::Context.*::(context|with_context)$|result::Result::<T, E>::map_err$", nm) and a0[0] == "adt":
+                    return a0
+                if re.search(r"regex::Regex::(captures|find)$", nm) and len(argv) > 1:
+                    seen_input.append(w.deref_val(env, argv[1]))
+                    if outcome == "none":
+                        return CW.adt("std::option::Option", "None", 0, [])
+                    if nm.endswith("find"):
+                        return CW.adt("std::option::Option", "Some", 1, [("0", CW.sym("M", "whole"))])
+                    return CW.adt("std::option::Option", "Some", 1, [("0", CW.sym("CAPS"))])
+                if re.search(r"regex::Captures::<'h>::name$|regex::Captures::name$", nm) and len(argv) > 1:
+                    k = w.deref_val(env, argv[1])
+                    if CW.is_const(k) and k[1] == "value" and outcome == "value":
+                        return CW.adt("std::option::Option", "Some", 1, [("0", CW.sym("M", "value"))])
+                    return CW.adt("std::option::Option", "None", 0, [])
+                if re.search(r"regex::Captures::<'h>::get$|regex::Captures::get$", nm) and len(argv) > 1:
+                    k = w.deref_val(env, argv[1])
+                    if CW.is_const(k) and k[1] == 0:
+                        return CW.adt("std::option::Option", "Some", 1, [("0", CW.sym("M", "whole"))])
+                    return CW.adt("std::option::Option", "None", 0, [])
+                if re.search(r"regex::Match::<'h>::as_str$|regex::Match::as_str$", nm) and a0[0] == "sym" and a0[1] == "M":
+                    return CW.sym("STR", a0[2])
+                r_ = sm(w, bb, t, argv, env)
+                if r_ is not None:
+                    return r_
+                return std(w, bb, t, argv, env)
+            w = CW.Walk(ctx, v, [hook], max_states=8000)
+
+            def on_visit(bb, env):
+                tm = v.blocks[bb]["term"]
+                if tm and tm["k"] == "return":
+                    r0 = env.get(0, CW.TOP)
+                    if r0[0] == "adt" and r0[2] == "Ok":
+                        p0 = w.deref_val(env, w.field(r0, "0"))
+                        if p0 == CW.sym("TRIMMED"):
+                            results.add("trimmed content")
+                        elif p0 == CW.sym("CONTENT"):
+                            results.add("untrimmed content")
+                        elif p0[0] == "sym" and p0[1] == "STR":
+                            results.add("the %s" % ("`value` group" if p0[2] == "value" else "whole match"))
+                        elif CW.is_const(p0) and p0[1] == "":
+                            results.add("the empty string")
+                        else:
+                            results.add("?")
+                    elif r0[0] == "adt" and r0[2] == "Err":
+                        results.add("an error")
+                    else:
+                        results.add("?")
+            w.on_visit = on_visit
+            env = {pfile[0]: CW.sym("FILE")}
+            try:
+                w.explore(0, env)
+            except CW.Limit:
+                return None
+            if not results or "?" in results:
+                return None
+            total += 1
+            want = "trimmed content" if pat is None else {"none": "the empty string", "whole": "the whole match", "value": "the `value` group"}[outcome]
+            if results != {want}:
+                bad.append((pat, outcome, sorted(results), want))
+            elif pat is not None and any(x != CW.sym("CONTENT") for x in seen_input):
+                bad.append((pat, outcome, ["a match against something other than the content as it is in the file"], want))
+            else:
+                n += 1
+    for pat, outcome, got, want in bad:
+        out.viol(rule, "%s|model|%s|%s" % (rule, "absent" if pat is None else repr(pat), outcome), ctx.where(fn_body),
+                 "content selection with %s and a regex that finds %s: the script / model is given %s; documented: %s" % (
+                     "no `%s`" % pattern_key if pat is None else "%s=%r" % (pattern_key, pat),
+                     {"none": "no match", "whole": "a match without a `value` group", "value": "a match with a `value` group"}[outcome], " / ".join(got), want))
+    out.inst(rule, n, 7, ["%s: {absent, \"\", \"p\"} x {no match, whole, value}: trimmed content / value | whole | \"\" of the raw content" % fn_body.id], exhaustive=True)
+    return not bad
+
+
 def check_content_selector(ctx, out, prefix, fn_body, pattern_key):
     """With `<name>-pattern`: value group else whole match of the RAW content else ""; without: trim."""
     rule = prefix + ".content"
@@ -202,6 +317,16 @@ def check_content_selector(ctx, out, prefix, fn_body, pattern_key):
     b = fn_body
     if b is None:
         out.inst(rule, 0, 5, note="content selector not found")
+        return
+    # decided on the small model when it can follow the code; the structural reading below otherwise
+    tr = out.trial()
+    try:
+        verdict = content_selector_model(ctx, tr, prefix, fn_body, pattern_key)
+    except Exception as e:      # noqa: BLE001
+        ctx.view_fallbacks.append("%s: small-model analysis failed (%s: %s)" % (rule, type(e).__name__, e))
+        verdict = None
+    if verdict is not None:
+        out.adopt(tr)
         return
     if not getattr(b, "is_inlined", False):
         b = ctx.inl(b, skip=ctx.domain_api, tag="domain", sugar=True)
